@@ -239,17 +239,19 @@ private:
     }
 
     while (n) {
+      // number of elements of the current inner range in front of us
       difference_type k =
-          std::distance(m_inner_begin_fn(*m_outer), this->base_reference()) + 1;
-      if (k == 1) {
-        decrement();
-        --n;
-      } else if (k < n) {
-        seek_backward();
-        n -= k;
-      } else {
+          std::distance(m_inner_begin_fn(*m_outer), this->base_reference());
+      if (n <= k) {
         std::advance(this->base_reference(), -n);
         n = 0;
+      } else {
+        // go to the start of this range, then one step back into the
+        // previous non-empty range
+        std::advance(this->base_reference(), -k);
+        n -= k;
+        decrement();
+        --n;
       }
     }
   }
